@@ -413,8 +413,10 @@ func (d *driver) stageOfflineRevisions() {
 	for _, p := range perms {
 		cache := d.newCache()
 		var names []string
+		var seq [][2]string
 		for _, rev := range p {
 			d.w.setRev(rev)
+			seq = append(seq, [2]string{d.w.revs[rev].b32, d.w.revs[rev].b32})
 			r := d.w.run(runSpec{Cache: cache, Pkgs: pk})
 			d.checkBuild("offline-revisions: caching build", rev, pk, cache, r, map[string]any{"exp": "offline-revisions", "publications": p, "rev": rev})
 			names = append(names, d.w.revs[rev].b32)
@@ -424,6 +426,24 @@ func (d *driver) stageOfflineRevisions() {
 		desc := map[string]any{"exp": "offline-revisions", "publications": p, "index_names_in_download_order": names,
 			"what": "a caching build after each publication, then an offline build, compared with the online build without cache"}
 		picked := d.emitOffline(cache, d.w.indexURL(), "APKINDEX.tar.gz", "offline-revisions", desc, d.w.classifyIndex)
+		d.emitTimes(cache, "index-times/three-publications", seq, map[string]any{"exp": "index-times", "publications": p})
+		if len(p) == 3 && p[0] == 0 {
+			// ... a roll-back to a revision that is cached already downloads nothing and changes no time; then an
+			// update that lands between the HEAD and the GET of one build (HEAD: the old etag, GET: the new one)
+			d.w.setRev(p[0])
+			d.w.run(runSpec{Cache: cache, Pkgs: pk})
+			seq = append(seq, [2]string{d.w.revs[p[0]].b32, d.w.revs[p[0]].b32})
+			d.emitTimes(cache, "index-times/roll-back", seq, map[string]any{"exp": "index-times", "publications": p, "then": "roll-back to the first"})
+			c2 := d.newCache()
+			d.w.setRev(p[0])
+			d.w.flipAfterHead(p[1])
+			d.w.run(runSpec{Cache: c2, Pkgs: pk})
+			time.Sleep(12 * time.Millisecond)
+			d.w.setRev(p[0])
+			d.w.run(runSpec{Cache: c2, Pkgs: pk})
+			d.emitTimes(c2, "index-times/update-between-head-and-get", [][2]string{{d.w.revs[p[0]].b32, d.w.revs[p[1]].b32}, {d.w.revs[p[0]].b32, d.w.revs[p[0]].b32}},
+				map[string]any{"exp": "index-times", "what": "first build: HEAD old, GET new; second build: old"})
+		}
 		o := d.w.run(runSpec{Cache: cache, Pkgs: pk, Offline: true})
 		want := d.ref(last, pk)
 		out := "error"
@@ -734,4 +754,40 @@ func (d *driver) stageSharedEtag() {
 			d.count("shared_etag_two_repositories", fmt.Sprintf("%s %s=%s", same, step, out))
 		}
 	}
+}
+
+// emitTimes: the advertised names of APKINDEX/ ordered by their REAL modification times (Lstat), next to the
+// sequence of builds that produced them (etag at the HEAD, etag at the GET of each): the model orders the same
+// names by the step that advertised them (Model/CacheTimes.v, c19_offline_opens_last_advertised)
+func (d *driver) emitTimes(cache, class string, builds [][2]string, desc map[string]any) {
+	dir := offlineDir(cache, d.w.indexURL())
+	des, _ := os.ReadDir(dir)
+	type nt struct {
+		stem string
+		t    int64
+	}
+	var l []nt
+	for _, de := range des {
+		if strings.HasSuffix(de.Name(), ".tmp") {
+			continue
+		}
+		if fi, err := de.Info(); err == nil {
+			l = append(l, nt{strings.TrimSuffix(de.Name(), ".tar.gz"), fi.ModTime().UnixNano()})
+		}
+	}
+	sort.SliceStable(l, func(i, j int) bool { return l[i].t < l[j].t })
+	var obs, bs []string
+	for _, x := range l {
+		obs = append(obs, gal.Str(x.stem))
+	}
+	for _, b := range builds {
+		bs = append(bs, gal.Pair(gal.Str(b[0]), gal.Str(b[1])))
+	}
+	desc["index_names_by_mtime"] = len(l)
+	d.out.Add(gal.Case{
+		Term:  fmt.Sprintf("(CTimes {| tc2_tab := tab; tc2_dir := %s; tc2_builds := %s; tc2_observed := %s |})", gal.Str(idir), gal.List(bs), gal.List(obs)),
+		Desc:  desc,
+		Class: class,
+		Key:   fmt.Sprintf("%s/%v/%v", class, builds, obs),
+	})
 }
